@@ -224,10 +224,12 @@ func createASTTypeExpr(pkg string, t types.Type, varPool *VarPool, imports map[s
 			if err != nil {
 				return nil, fmt.Errorf("field %d: %w", i, err)
 			}
-			fields = append(fields, &ast.Field{
-				Names: []*ast.Ident{ast.NewIdent(typ.Field(i).Name())},
-				Type:  expr,
-			})
+			field := &ast.Field{Type: expr}
+			if !typ.Field(i).Embedded() {
+				// an embedded field has no name of its own: struct{ io.Reader } is not struct{ Reader io.Reader }
+				field.Names = []*ast.Ident{ast.NewIdent(typ.Field(i).Name())}
+			}
+			fields = append(fields, field)
 		}
 		return &ast.StructType{
 			Fields: &ast.FieldList{
